@@ -51,6 +51,19 @@ def _comment(node, ind):
     return f"{ind}<comment>{escape(c)}</comment>\n"
 
 
+def _comment_last(node):
+    """The position of <comment> among the children of a struct, packet or case is free (the generator looks it
+    up by tag and filters instructions by tag): a third of the commented bodies carry it AFTER their
+    instructions. Derived from the text, so the generators draw nothing extra."""
+    c = node.get("comment")
+    return bool(c) and (len(c) + ord(c[0])) % 3 == 0
+
+
+def _with_comment(node, ind, body_text):
+    com = _comment(node, ind)
+    return body_text + com if _comment_last(node) else com + body_text
+
+
 def _render_body(body, ind):
     out = ""
     for ins in body:
@@ -85,8 +98,7 @@ def _render_body(body, ind):
             out += f"{ind}<switch{_attrs([('field', ins['field'])])}>\n"
             for c in ins["cases"]:
                 a = _attrs([("value", c.get("value")), ("default", c.get("default"))])
-                out += f"{ind}  <case{a}>\n" + _comment(c, ind + "    ")
-                out += _render_body(c["body"], ind + "    ")
+                out += f"{ind}  <case{a}>\n" + _with_comment(c, ind + "    ", _render_body(c["body"], ind + "    "))
                 out += f"{ind}  </case>\n"
             out += f"{ind}</switch>\n"
         elif t == "chunked":
@@ -116,12 +128,11 @@ def render_decl(d, ind="  "):
                 out += f"{ind}  <value{a}>{escape(text)}</value>\n"
         return out + f"{ind}</enum>\n"
     if k == "struct":
-        out = f"{ind}<struct{_attrs([('name', d['name'])])}>\n" + _comment(d, ind + "  ")
-        return out + _render_body(d["body"], ind + "  ") + f"{ind}</struct>\n"
+        out = f"{ind}<struct{_attrs([('name', d['name'])])}>\n"
+        return out + _with_comment(d, ind + "  ", _render_body(d["body"], ind + "  ")) + f"{ind}</struct>\n"
     if k == "packet":
         out = f"{ind}<packet{_attrs([('family', d['family']), ('action', d['action'])])}>\n"
-        out += _comment(d, ind + "  ")
-        return out + _render_body(d["body"], ind + "  ") + f"{ind}</packet>\n"
+        return out + _with_comment(d, ind + "  ", _render_body(d["body"], ind + "  ")) + f"{ind}</packet>\n"
     raise ValueError(k)
 
 
